@@ -54,6 +54,9 @@
 (*                 (nobody if every checked peer is inconsistent)          *)
 (*   FixRefreshLists  after a failed resolveConflict the cached checkpoint *)
 (*                 lists are dropped, the next attempt fetches them anew   *)
+(*   FixPrevTipGuard  getUncheckpointedCFHeaders gives up, banning nobody, *)
+(*                 if the filter tip changed while its getcfheaders        *)
+(*                 broadcast was outstanding                               *)
 (***************************************************************************)
 EXTENDS Integers, Sequences, FiniteSets, TLC, Json, CFSyncProps
 
@@ -71,7 +74,8 @@ CONSTANTS NP,         \* number of peers
           MaxExtN,    \* largest header batch
           Scen,       \* set of scenarios [asg, bt, ft, hard]
           FixCPNoPanic, FixURecheck, FixChainCheck, FixNoQueryNoBan,
-          FixRollbackMemTip, FixSnapshotCheck, FixSelfConsistency, FixRefreshLists
+          FixRollbackMemTip, FixSnapshotCheck, FixSelfConsistency, FixRefreshLists,
+          FixPrevTipGuard
 
 VARIABLES sc,      \* [asg, hard]  behaviour assignment, hard-coded checkpoint height (constant)
           bs,      \* block header store: block ids by height
@@ -545,7 +549,10 @@ UCfh(rsS) ==
   /\ LET pb  == {p \in rsS : PrevOf(p, ctx.qc, ctx.s) # ctx.utip}      \* :784
          bn1 == BanAdd(ban, pb)
          hd  == rsS \ pb
-     IN  IF hd = {}
+     IN  IF FixPrevTipGuard /\ fs[Len(fs)] # ctx.utip
+         THEN /\ H("tipz", NoCtx, ban, good, fs, memF, cpq)
+              /\ Fin(Act("UCfh", "err", SortedSeq(rsS), 0, 0, 0, ctx.s, ctx.e))
+         ELSE IF hd = {}
          THEN /\ H("tipz", NoCtx, bn1, good, fs, memF, cpq)
               /\ Fin(Act("UCfh", "err", SortedSeq(rsS), 0, 0, 0, ctx.s, ctx.e))
          ELSE Apply("UCfh", Outcome([ctx EXCEPT !.hd = Flags(hd)], bn1, ctx.s),
